@@ -14,7 +14,8 @@ PKG = os.path.join(REPO, "json_to_models") + os.sep
 
 
 class Sched:
-    def __init__(self, jobs, schedule, step_timeout=20.0):
+    def __init__(self, jobs, schedule, step_timeout=20.0, thread_name=None):
+        self.thread_name = thread_name
         self.jobs = jobs
         self.schedule = list(schedule)
         self.n = len(jobs)
@@ -65,7 +66,8 @@ class Sched:
             self.ctl.release()
 
     def run(self):
-        ts = [threading.Thread(target=self._worker, args=(i,), daemon=True) for i in range(self.n)]
+        ts = [threading.Thread(target=self._worker, args=(i,), daemon=True, **({"name": self.thread_name} if self.thread_name else {}))
+              for i in range(self.n)]
         for t in ts:
             t.start()
         pos = 0
